@@ -1,5 +1,6 @@
 """Rule engines shared by the property checks (PANIC, mutation summaries, ATOMIC, KIND labels, helpers)."""
 import re
+import facts
 from collections import defaultdict
 
 import prov as provmod
@@ -470,6 +471,9 @@ class Atomic:
         if g.id in _stack:
             return False
         self._validator_memo[key] = False
+        if self._combinator_validator(g, k):
+            self._validator_memo[key] = True
+            return True
         P, sites, results = self.check_method(g, param_filter={k}, _stack=_stack)
         r = False
         if k in P:
@@ -478,6 +482,30 @@ class Atomic:
                 r = True
         self._validator_memo[key] = r
         return r
+
+    PRESERVING = {"map", "as_ref", "as_mut", "as_deref", "copied", "cloned", "and_then", "filter", "map_err", "ok_or", "ok_or_else", "inspect"}
+
+    def _combinator_validator(self, g, k):
+        """a pure, branch-free function whose VALUE is  lookup(param k) [.map(..)]* .ok_or(err) : it is Err exactly when the lookup found
+        nothing (no combinator on the way can turn None into Some)"""
+        if g.natural_loops() or self.ms.mutation_sites(g) or any(g.blocks[bi].term.k == "switch" for bi in g.reach):
+            return False
+        pvp = Prov(self.prog, inline=False, mutflow=False)
+
+        class _O:
+            pass
+        o = _O()
+        o.place = facts.Place({"l": 0, "p": []})
+        o.kind = "copy"
+        chain = receiver_calls(g, pvp, o)
+        if not chain or not any(c.callee.method in ("ok_or", "ok_or_else") for c in chain):
+            return False
+        root = chain[-1]
+        if not (self.is_lookup(root.callee) and len(root.args) > self.key_arg):
+            return False
+        if any(c.callee.method not in self.PRESERVING for c in chain[:-1]):
+            return False
+        return k in {a[2] for a in pvp.of_operand(g, root.args[self.key_arg]) if a[0] == "param" and a[1] == g.id}
 
     def check_method(self, m, param_filter=None, _stack=()):
         """B1 for body m.  returns (P, sites, results) with results = list of dict(site, param, ok, reason)"""
@@ -699,6 +727,8 @@ def decode_format_template(b):
                 if x & 2:
                     d["width"] = int.from_bytes(b[i:i + 2], "little")
                     i += 2
+                    if x & 0x10:
+                        d["width_arg"] = True  # `{:0w$}`: the number is the index of the argument that holds the width
                 if x & 4:
                     d["precision"] = int.from_bytes(b[i:i + 2], "little")
                     i += 2
@@ -1365,6 +1395,57 @@ def adaptor_chain(body, pv, op):
                 nxt = o
         cur = nxt
     return chain
+
+
+
+def fn_item_args(prog, target_pred):
+    """calls that receive a crate function as a VALUE (`helper(.., InformationContent::set_gene)`): list of (body, bb, call, arg index, target id)"""
+    out = []
+    for b in prog.production():
+        consts = {}
+        for pos, st in b.stmts():
+            if st.k == "assign" and st.place.is_local() and st.rv and st.rv["k"] == "use" and st.rv["op"].kind == "const":
+                c = st.rv["op"].const
+                v = c.get("fn") or c.get("res")
+                if v:
+                    consts[st.place.local] = v
+        for bi, t in b.calls():
+            for i, a in enumerate(t.args):
+                v = None
+                if a.kind == "const":
+                    v = a.const.get("fn") or a.const.get("res")
+                elif a.place is not None and a.place.is_local():
+                    v = consts.get(a.place.local)
+                if v and v in prog.bodies and target_pred(v):
+                    out.append((b, bi, t, i, v))
+    return out
+
+
+def receiver_calls(body, pv, op):
+    """the call terminators between an operand and its source, walking receivers (args[0]) backwards (outermost first)"""
+    out = []
+    cur = op
+    seen = set()
+    defs = pv.defs(body)
+    while cur is not None and cur.place is not None and cur.place.local not in seen:
+        l = cur.place.local
+        seen.add(l)
+        nxt = None
+        for kind, pos, d in defs.get(l, []):
+            if kind == "call":
+                out.append(d)
+                nxt = d.args[0] if d.args else None
+            elif d.rv["k"] in ("use", "cast"):
+                nxt = d.rv["op"]
+            elif d.rv["k"] == "ref":
+                class _O:
+                    pass
+                o = _O()
+                o.place = d.rv["place"]
+                o.kind = "copy"
+                nxt = o
+        cur = nxt
+    return out
 
 
 # `pop` / `drain` are not listed: a work list emptied with `while let Some(x) = stack.pop()` and the tail drains of a sorted merge
@@ -2399,19 +2480,43 @@ def check_kind_siblings(ck, rule, prog, file_rx=r".*", floor=0):
             return True
         return any(t.callee.res in prog.bodies and prog.bodies[t.callee.res].kind != "Closure" for fb in prog.family(tg) for _, t in fb.calls())
 
-    def feats(b):
-        cc, st = set(), set()
+    impls = {}
+    for x in prog.production():
+        if x.kind == "AssocFn" and x.impl_trait and x.name:
+            impls.setdefault(x.name, []).append(x)
+    PLAIN = ("new", "default", "from", "into", "clone", "try_new", "with_capacity", "as_u32", "id", "name", "iter", "into_iter", "next")
+
+    def is_private_helper(x):
+        return x.kind in ("Fn", "AssocFn") and not (x.exported or x.reachable or x.impl_trait)
+
+    def feats(b, depth=2):
+        """(crate functions called, suspicious std steps, private helpers looked into).  A private helper is looked INTO (its own calls count
+        as the variant's): one variant written through a shared helper and a sibling written out in full then compare equal"""
+        cc, st, hs = set(), set(), set()
         for fb in prog.family(b):
             for bi, t in fb.calls():
                 r = t.callee.res
                 if r and r in prog.bodies and prog.bodies[r].kind != "Closure":
-                    nm = _abs_kind(prog.bodies[r].name or "?")
-                    if nm not in ("new", "default", "from", "into", "clone", "try_new", "with_capacity", "as_u32", "id", "name", "iter", "into_iter", "next") and substantial(prog.bodies[r]):
+                    tg = prog.bodies[r]
+                    nm = _abs_kind(tg.name or "?")
+                    if nm in PLAIN:
+                        continue
+                    if depth and is_private_helper(tg) and tg.id != b.id and not tg.natural_loops():
+                        c2, s2, h2 = feats(tg, depth - 1)
+                        cc |= c2
+                        st |= s2
+                        hs |= h2 | {nm}
+                        continue
+                    if substantial(tg):
                         cc.add(nm)
+                elif r is None and t.callee.trait and t.callee.method in impls and t.callee.method not in PLAIN:
+                    # a call through a crate trait on a type parameter (`D::add_term` in a generic helper): the method's impls decide
+                    if any(substantial(x) for x in impls[t.callee.method] if (x.impl_trait or "") == t.callee.trait or (x.impl_trait or "").endswith(t.callee.trait.rsplit("::", 1)[-1])):
+                        cc.add(_abs_kind(t.callee.method))
                 elif t.callee.method in sus:
                     # selection by content is one class however it is spelled (filter / filter_map(.. then_some) / find ...)
                     st.add("a selecting adaptor (filter / filter_map / find ..)" if t.callee.method in ("filter", "filter_map", "find", "find_map", "flat_map", "retain", "position") else t.callee.method)
-        return cc, st
+        return cc, st, hs
     n = 0
     for key, bs in sorted(kind_sibling_groups(prog).items()):
         if not any(re.search(file_rx, b.file or "") for b in bs):
